@@ -90,6 +90,22 @@ func genC08Plan(r *zsim.Rng) *sysPlan {
 		p.Tail = []int{1, 50, 100, 150, 1000}[r.Intn(5)]
 	}
 	if r.Chance(1, 8) {
+		// fields cut at a string delimiter, the search restricted to some of them; records whose last field
+		// ends in delimiters (one trailing delimiter is not part of what is searched - however often one searches)
+		p.Args = append(p.Args, "--delimiter", ",", "--nth", pick(r, "2..", "2", "-1", "1..2"))
+		for k := r.Range(3, 40); k > 0; k-- {
+			var b strings.Builder
+			for f := r.Range(1, 4); f > 0; f-- {
+				for l := r.Range(0, 3); l > 0; l-- {
+					b.WriteByte(lineAlphabet[r.Intn(len(lineAlphabet))])
+				}
+				b.WriteString([]string{",", ",", ",,", ", ,", ""}[r.Intn(5)])
+			}
+			p.Lines.Extra = append(p.Lines.Extra, b.String())
+		}
+		p.Gens[0] = p.Lines
+	}
+	if r.Chance(1, 8) {
 		// aimed at the hand-over at the end of a reload-sync: lines are excluded, a slow reload-sync replaces
 		// the input, and the user goes on typing (or re-sorting) while it is still being read
 		p.Events = append(p.Events, sysEvent{Kind: "settle"}, sysEvent{Kind: "keys", Keys: "alt-x"}, sysEvent{Kind: "settle"},
@@ -246,6 +262,7 @@ func c08Settle(r *sysRun, busy bool, final bool) {
 	mc := plan.Match
 	mc.Sort = sortNow
 	mc.nth = r.t.nthCurrent
+	mc.delim = argValue(plan.Args, "--delimiter")
 	// effective query: the search(...) override while one is active; the frozen query while search is disabled
 	effQuery := st.Query
 	if r.t.inputOverride != nil {
